@@ -19,6 +19,7 @@ import warnings
 
 import numpy as np
 
+from vf import bigcases
 from vf import core
 
 PROPERTY = "C13"
@@ -498,3 +499,4 @@ def run(ctx):
     core.run_forked(ctx, case_cache_race, [{"step": 1}], sub="two workers sharing the cache directory (all interleavings, <= 2 preemptions)", nproc=4, timeout=1800)
     bc = [{"order": list(o), "break_at": b, "how": h} for o in ((0, 1, 2), (2, 1, 0), (1, 1, 2), (0, 2, 2)) for b in (0, 1, 2) for h in ("gone", "file")]
     ctx.run_cases(case_broken_cache, bc, sub="cache directory breaks in the middle of a series")
+    bigcases.run(ctx, "C13")
